@@ -65,6 +65,8 @@ CATALOGUE = {
     "rflex":    dict(params=["n"], minN=1, dom="any", transc=True),
 }
 UNARY = sorted(CATALOGUE)
+# the crate's `Default` impls: Drawdown / LnReturn / WelfordRolling over Echo, built with `Default::default()` by the harness
+DEFAULTS = {"drawdown_d": "drawdown", "lnret_d": "lnret", "wroll_d": "wroll"}
 BINOPS = ["add", "sub", "mul", "div"]
 TWO = {"pfe": dict(minN=3, transc=True), "eft": dict(minN=1, transc=True)}
 
@@ -83,9 +85,9 @@ def gen_params(rng, name, nmax=8, n=None):
         elif p == "gamma":
             ps.append(F(rng.choice([0, 1, 2, 3, 4, 5, 6, 7]), 8))
         elif p == "sigma":
-            ps.append(F(rng.choice([2, 4, 6, 8, 12])))
+            ps.append(F(rng.choice([1, 2, 4, 6, 6, 8, 12])))
         elif p == "offset":
-            ps.append(F(rng.choice([1, 2, 3, 4, 5, 6, 7]), 8))
+            ps.append(F(rng.choice([0, 1, 2, 3, 4, 5, 6, 7, 8]), 8))
         elif p == "clip":
             ps.append(F(rng.randint(-16, 16), 4))
     return ps
@@ -231,7 +233,7 @@ def gen_stream(rng, length, n=4, positive=False, families=None):
 def needs_positive(e):
     """views whose domain is positive input; a chain containing one is fed positive values"""
     names = tree_names(e)
-    return any(x in ("drawdown", "lnret") for x in names)
+    return any(x in ("drawdown", "lnret", "drawdown_d", "lnret_d") for x in names)
 
 
 def window_of(e):
